@@ -267,6 +267,93 @@ def run_python(pkg, n, rnd, out):
                    "" if ok else " py=%s lib=%s" % (got[:40], want.hex()[:40])))
 
 
+PYSCRIPT = r'''
+import sys, json
+sys.path.insert(0, sys.argv[1])
+from pickle_fuzzer import Generator
+from pickle_fuzzer.fuzzer import PickleMutator
+for line in sys.stdin:
+    t = json.loads(line)
+    res = []
+    try:
+        g = Generator(protocol=t["protocol"], seed=t["seed"])
+        m = PickleMutator(protocol=t["protocol"], seed=t["seed"])
+        for st in t["steps"]:
+            try:
+                if st[0] == "range": g.set_opcode_range(st[1], st[2])
+                elif st[0] == "mrange": m.generator.set_opcode_range(st[1], st[2])
+                elif st[0] == "reset": g.reset()
+                elif st[0] == "mreset": m.reset()
+                elif st[0] == "gen": res.append(bytes(g.generate()).hex())
+                elif st[0] == "genb": res.append(bytes(g.generate_from_bytes(bytes.fromhex(st[1]))).hex())
+                elif st[0] == "mut": res.append(bytes(m.mutate(bytes.fromhex(st[1]), st[2])).hex())
+            except Exception as e:
+                res.append("EXC:" + type(e).__name__)
+    except Exception as e:
+        res.append("EXC:" + type(e).__name__ + ":" + str(e).replace("\\n", " ")[:80])
+    print(json.dumps(res))
+    sys.stdout.flush()
+'''
+
+
+def run_python_scripts(pkg, n, rnd, out):
+    """call *sequences* on one Generator and one PickleMutator: every output must be the library's bytes for the
+    object's current configuration (protocol and seed from the constructor, the opcode range as last set) and for
+    that call's own input — whatever was called before (C13 and, through the front end, C08)."""
+    def blob(k):
+        return bytes(rnd.randrange(256) for _ in range(k)).hex()
+    tests = []
+    for k in range(n):
+        t = dict(protocol=rnd.randrange(0, 6), seed=rnd.randrange(0, 100000), steps=[])
+        d = blob(rnd.choice([0, 3, 40, 64, 200]))
+        d2 = blob(rnd.choice([1, 17, 90]))
+        big = 10 ** 6
+        pat = k % 8
+        if pat == 0:      # same data twice, a smaller limit the second time
+            t["steps"] = [["mut", d, big], ["mut", d, rnd.choice([5, 30, 171])], ["mut", d, big]]
+        elif pat == 1:    # same data, the range changed in between
+            t["steps"] = [["mut", d, big], ["mrange", rnd.choice([0, 5]), rnd.choice([10, 20])], ["mut", d, big]]
+        elif pat == 2:    # reset between identical calls; different data in between
+            t["steps"] = [["mut", d, big], ["mreset"], ["mut", d, big], ["mut", d2, big], ["mut", d, 50]]
+        elif pat == 3:    # Generator: bytes, seeded, bytes again
+            t["steps"] = [["genb", d], ["gen"], ["genb", d], ["range", 10, 30], ["genb", d], ["gen"]]
+        elif pat == 4:    # range set several times; the last one counts; the seed stays
+            t["steps"] = [["range", 100, 200], ["range", rnd.choice([0, 7]), rnd.choice([7, 12])], ["gen"], ["reset"], ["gen"], ["genb", d2]]
+        elif pat == 5:    # inverted and zero ranges through the binding
+            t["steps"] = [["range", rnd.choice([30, 9]), rnd.choice([0, 5])], ["gen"], ["genb", d], ["mrange", 12, 3], ["mut", d, big]]
+        elif pat == 6:    # limit exactly at / around the output length is exercised by several limits on one input
+            t["steps"] = [["mut", d, lim] for lim in (0, 1, 2, 100, 342, big)]
+        else:             # alternating inputs
+            t["steps"] = [["mut", d, big], ["mut", d2, big], ["mut", d, big], ["genb", d2], ["genb", d]]
+        tests.append(t)
+    rc, so, se = sh([sys.executable, "-c", PYSCRIPT, pkg], inp="\n".join(json.dumps(t) for t in tests).encode())
+    lines = so.decode().strip().split("\n") if so.strip() else []
+    if len(lines) != len(tests):
+        out.append("front python FAIL the extension module did not answer %d of %d scripts: %s" % (len(tests) - len(lines), len(tests), se.decode()[-200:].replace("\n", "|").replace(" ", "_")))
+        return
+    for t, line in zip(tests, lines):
+        got = json.loads(line)
+        rng = {"g": (60, 300), "m": (60, 300)}
+        want = []
+        for st in t["steps"]:
+            if st[0] == "range": rng["g"] = (st[1], st[2])
+            elif st[0] == "mrange": rng["m"] = (st[1], st[2])
+            elif st[0] in ("gen", "genb", "mut"):
+                who = "m" if st[0] == "mut" else "g"
+                mode = "rand:%d" % t["seed"] if st[0] == "gen" else "arb:%s" % (st[1] or "-")
+                case = "id=0 P=%d unsafe=0 mu=0 ext=0 buf=0 min=%d max=%d muts=- rate=3fb999999999999a warm=0 mode=%s seed=%d" % (
+                    t["protocol"], rng[who][0], rng[who][1], mode, t["seed"])
+                w = lib_bytes(case)
+                if st[0] == "mut":
+                    w = w[: st[2]]
+                want.append(w.hex())
+        bad = [i for i, (a, b) in enumerate(zip(got, want)) if a != b]
+        ok = not bad and len(got) == len(want)
+        brief = [[x if not (isinstance(x, str) and len(x) > 16) else x[:16] + ".." for x in st] for st in t["steps"]]
+        out.append("front python %s script=%s%s" % ("ok" if ok else "FAIL", json.dumps(dict(protocol=t["protocol"], seed=t["seed"], steps=brief)).replace(" ", ""),
+                   "" if ok else " first_wrong_output=%s py=%s lib=%s" % (bad[0] if bad else "count", (got[bad[0]] if bad else str(len(got)))[:40], (want[bad[0]] if bad else str(len(want)))[:40])))
+
+
 def main():
     kinds = sys.argv[1].split(",") if len(sys.argv) > 1 else ["cli", "batch", "action", "python"]
     n = int(sys.argv[2]) if len(sys.argv) > 2 else 20
@@ -281,6 +368,7 @@ def main():
         if "python" in kinds:
             pkg = build_py()
             run_python(pkg, n, rnd, out)
+            run_python_scripts(pkg, max(8, n // 2), rnd, out)
     except RuntimeError as e:
         out.append("front build FAIL %s" % str(e).replace("\n", "|").replace(" ", "_")[:600])
     print("\n".join(out))
